@@ -10,5 +10,7 @@ CONSTANTS
   FileLayer = FALSE
   SilentRelease = FALSE
   ForgetsHandle = FALSE
+  MaxMigrate = 0
+  RegisterOnce = FALSE
 SPECIFICATION GSpec
 INVARIANTS Emit
